@@ -48,9 +48,19 @@ def _row_like(w2j, name: str) -> bool:
 def _helper_kind(ctx, w2j, expr) -> str | None:
     d = expr
     if isinstance(expr, ast.Name):
-        for x in walk_own(w2j.node):
-            if isinstance(x, ast.Assign) and any(isinstance(t, ast.Name) and t.id == expr.id for t in x.targets) and isinstance(x.value, ast.Dict):
-                d = x.value
+        # the dict literal the name is bound to, through plain copies (`x = y`: the result variable of an expanded helper)
+        todo, seen_ = [expr.id], set()
+        while todo:
+            nm_ = todo.pop()
+            if nm_ in seen_:
+                continue
+            seen_.add(nm_)
+            for x in walk_own(w2j.node):
+                if isinstance(x, ast.Assign) and any(isinstance(t, ast.Name) and t.id == nm_ for t in x.targets):
+                    if isinstance(x.value, ast.Dict):
+                        d = x.value
+                    elif isinstance(x.value, ast.Name):
+                        todo.append(x.value.id)
     if not isinstance(d, ast.Dict):
         return None
     for k, v in zip(d.keys, d.values):
@@ -470,7 +480,14 @@ def run(ctx):
               necessary="a parameter written to the wrong attribute, accepted but ignored, or consumed without being allowed")
     fns = [w2j, ctx.func("pyxform.xls2json:process_range_question_type", "C04.R6")]
     got, _sites = param_wiring(ctx, fns, loop)
+    # contexts whose whole branch is ALSO evaluated below over parameter subsets (type_branch_obligations): there the
+    # evaluation decides; the data-flow extraction only adds a second opinion where the wiring has a shape it can read
+    EVALUATED_WIRING = {"photo", "audio", "background-audio", "geo"}
+    EVALUATED_ALLOWED = {"photo", "audio", "background-audio", "geopoint", "geoshape/geotrace"}
     for (c, p), (s, k) in sorted(spec.PARAM_WIRING.items()):
+        if got.get((c, p)) is None and c in EVALUATED_WIRING:
+            r6.ok(f"wiring {c}:{p}", f"parameter is written to {s}.{k} (not readable by data flow here; decided by the evaluated type branch)", w2j.loc())
+            continue
         r6.check(got.get((c, p)) == (s, k), f"wiring {c}:{p}", f"parameter is written to {s}.{k}", w2j.loc(), why_fail=f"got {got.get((c, p))}")
     # wiring beyond the documented table is an additive feature unless it writes into an attribute a documented
     # parameter owns (two parameters fighting over one attribute)
@@ -507,6 +524,9 @@ def run(ctx):
                 if okc:
                     allowed_seen[_allowed_context(c, loop, fn)] = set(v)
     for ctxt, want in sorted(spec.ALLOWED_PARAMS.items()):
+        if allowed_seen.get(ctxt) is None and ctxt in EVALUATED_ALLOWED:
+            r6.ok(f"allowed:{ctxt}", f"accepted parameters == {sorted(want)} (tuple not a literal at the call; decided by the evaluated type branch: other parameters are rejected there)", w2j.loc())
+            continue
         r6.check(allowed_seen.get(ctxt) == want, f"allowed:{ctxt}", f"accepted parameters == {sorted(want)}", w2j.loc(), why_fail=f"got {allowed_seen.get(ctxt)}")
     # every validate() precedes the parameters' use in its block: validate call dominates wiring statements of the same context
     # select parameters are consumed by the select control builder
